@@ -64,6 +64,7 @@ def explore(ctx, depth):
     from kernpy.core.exporter import get_kern_from_ekern
     rng = ctx.rng
     cases = docrun.make_cases(ctx, 40 if depth == 'quick' else 500)
+    extended_signifiers(ctx, depth)
     # corpus: all single and ordered-pair placements of the signifiers on one note (one document each batch)
     import itertools
     notes = []
@@ -234,9 +235,84 @@ def explore(ctx, depth):
                   nontrivial=False, what='model: export(import(export)) differs')
 
 
+# every alternative of `noteDecoration` in the grammar, with the ones that are longer than one character or combine with their neighbours
+# (outside the 30 signifiers of the canonicity clause): slurs with elision marks and staff changes, ties, hidden ties, editorial marks, trills,
+# mordents, grace marks, ...
+EXT_SIGS = ['&(', '&)', '&&(', '(<', '(>', ')', '(', '<', '>', 'L<', 'J>', 'K<', 'k>', '[y', '[', ']', '_', 'x', 'xx', 'y', 'yy', '?', '??', 'T', 'TT', 't',
+            'W', 'w', 'Ww', 'M', 'm', 'q', 'qq', 'p', 'P', '.', 'S', '$', 'O', 'l', 'V', 'N', 'j', 'X', 'Z', 'i', ':', "'", '"', '`', '~', '^', ';', 's',
+            '{', '}', '/', '\\', 'L', 'J', 'K', 'k']
+
+
+def ext_chain(kp, Encoding, get_kern_from_ekern, text):
+    """the two chains of the property on one text; returns None when both hold, else (clause, details...)"""
+    d, e = kp.loads(text)
+    if e:
+        return ('import-errors', [x.encoding for x in e])
+    d1 = kp.dumps(d)
+    dd, ee = kp.loads(d1)
+    if ee:
+        return ('reimport-errors', d1, [x.encoding for x in ee])
+    d2 = kp.dumps(dd)
+    if d2 != d1:
+        return ('plain-not-fixed', d1, d2)
+    e1 = kp.dumps(d, encoding=Encoding.eKern)
+    d3, e3 = kp.loads(get_kern_from_ekern(e1))
+    if e3:
+        return ('ext-reimport-errors', e1, [x.encoding for x in e3])
+    e2 = kp.dumps(d3, encoding=Encoding.eKern)
+    if e2 != e1:
+        return ('ext-not-fixed', e1, e2)
+    return None
+
+
+def extended_signifiers(ctx, depth):
+    """notes that carry one or two signifiers of the FULL alphabet of the grammar, before the duration and after the pitch: the default export
+    must re-import without errors and be a fixed point; the extended chain must return the extended text - except that two signifiers which read
+    as ONE longer signifier when they stand next to each other (`(` + `<`, `[` + `y`, `W` + `w`, `?` + `??` ...) cannot be told apart once the
+    separators are removed: finding F20, attributed only when the two extended texts differ in decoration separators alone"""
+    import kernpy as kp
+    from kernpy.core.tokenizers import Encoding
+    from kernpy.core.exporter import get_kern_from_ekern
+    rng = ctx.rng
+    combos = [((a,), ()) for a in EXT_SIGS] + [((), (a,)) for a in EXT_SIGS]
+    pairs = [(a, b) for a in EXT_SIGS for b in EXT_SIGS]
+    if depth == 'quick':
+        pairs = rng.sample(pairs, 500) + [('(', '&('), ('&(', '('), (')', '&)'), ('(', '(<'), ('L', 'L<'), ('[', 'y'), ('W', 'w'), ('(', '<')]
+    for a, b in pairs:
+        combos.append(((a,), (b,)) if rng.random() < 0.5 else ((), (a, b)))
+        if rng.random() < 0.3:
+            combos.append(((a, b), ()))
+    for pre, post in combos:
+        cell = ''.join(pre) + rng.choice(['4c', '8.dd', '16GG#', '2e-']) + ''.join(post)
+        text = '**kern\n*clefG2\n=1\n%s\n==\n*-\n' % cell
+        r = call(lambda: ext_chain(kp, Encoding, get_kern_from_ekern, text))
+        ctx.seen({'cell': cell, 'clause': 'extended signifier alphabet'}, True)
+        ctx.count('ext_sig:' + ('raise' if 'err' in r else 'ok' if r['ok'] is None else r['ok'][0]))
+        if 'err' in r:
+            ctx.fail({'text': text, 'clause': 'extended signifier alphabet'}, 'import / export of a note with grammar signifiers raises', impl=r)
+            continue
+        r = r['ok']
+        if r is None or r[0] == 'import-errors':
+            continue                      # the parser rejects the combination: not a document that "imports without errors"
+        if r[0] == 'ext-not-fixed':
+            sep_only = r[1].replace('\u00b7', '') == r[2].replace('\u00b7', '')
+            ctx.fail({'text': text, 'clause': 'extended chain (full signifier alphabet)'},
+                     'the extended export is not returned by removing the separators, re-importing and re-exporting in extended form',
+                     impl=r[2], expected=r[1], core=not sep_only, finding='F20-fusing-signifiers' if sep_only else None, tie_ok=True)
+        else:
+            ctx.fail({'text': text, 'clause': r[0] + ' (full signifier alphabet)'},
+                     'import(export) has errors or does not re-export to the same text', impl=list(r[1:]))
+
+
 def replay(ctx, payload):
     explore(ctx, 'quick')
 
 
 def reproduce(ctx, key, w):
+    if key == 'F20-fusing-signifiers':
+        import kernpy as kp
+        from kernpy.core.tokenizers import Encoding
+        from kernpy.core.exporter import get_kern_from_ekern
+        r = ext_chain(kp, Encoding, get_kern_from_ekern, w['input']['text'])
+        return r is not None and r[0] == 'ext-not-fixed' and r[1] == w['expected'] and r[2] == w['impl']
     return False
